@@ -264,7 +264,19 @@ impl<T: ?Sized> RwLock<T> {
             typ,
             self,
         );
+        // A task that already holds the read lock must fail without taking another permit: only the
+        // guard it already has will ever be released, so a permit taken here would be lost for good
+        // and a later `write` could never be granted.
+        let already_reader =
+            typ == RwLockType::Read && matches!(&state.holder, RwLockHolder::Read(readers) if readers.contains(me));
         drop(state);
+
+        if already_reader {
+            // Still a scheduling point, like the `try_acquire` below.
+            thread::switch();
+            trace!("failed to acquire {:?} lock on rwlock {:p} (re-entrant)", typ, self);
+            return false;
+        }
 
         // Semaphore is never closed, so an error here is always `NoPermits`.
         let mut acquired = self.semaphore.try_acquire(typ.num_permits()).is_ok();
